@@ -401,6 +401,19 @@ pub fn generate(prop: &str, rng: &mut Rng, plan: &mut Plan, index: u64) {
             shrink_outputs(p, cap_bytes);
         }
     }
+    // a parent that runs with standard descriptors closed: the library's pipes get their numbers
+    // (only for streams the child does not inherit, so the programs behave as modelled)
+    if !c.thread_variant && rng.chance(1, 8) {
+        let mut mask = 0u8;
+        for (i, sc) in [c.stdin, c.stdout, c.stderr].iter().enumerate() {
+            let redirected = matches!(sc, StreamCfg::Pipe | StreamCfg::Null | StreamCfg::File) || (i == 2 && c.api == CommApi::PipeCommunicate);
+            if redirected && rng.chance(2, 3) {
+                mask |= 1 << i;
+            }
+        }
+        plan.parent.closed_std = mask;
+        plan.parent.files_low = rng.chance(1, 2);
+    }
     plan.body = Body::Comm(c);
 }
 
